@@ -13,7 +13,7 @@ from vf import detloop, env, xs
 
 YMAX = 2
 ENTRY = 0  # 0: validate_deep_anwendungshandbuch, 1: validate_segment
-ELEMS = (("D0", "Muss [1][950]", "alpha"), ("D1", "Muss [950]", ""), ("D2", "Kann [2][951] U [950]", "gamma"), ("D3", "X [950]", None), ("D4", "Muss [950] U [951]", "apple"))
+ELEMS = (("D0", "Muss [1][950]", "alpha"), ("D1", "Muss [950]", ""), ("D2", "Kann [2][951] U [950]", "gamma"), ("D3", "X [950]", None), ("D4", "Muss [950] U [951]", "apple"), ("D5", "Muss [10P]", "avoca"), ("D6", "Muss [951]", ""))
 NEL = 4
 FIX = (-1, -1)
 
@@ -67,36 +67,41 @@ def own_input(y0: int, y1: int, y2: int, y3: int, y4: int, yr: int) -> bool:
         fc = cls()
         fc.edifact_format, fc.edifact_format_version = env.FMT, env.FV
         rc = env.make_rc_evaluator({"1": env.STATES[0], "2": env.STATES[0]}, {"1": yr, "2": 0}, log)
-        env.configure([rc, fc, env.YHints({}, {}, log), env.YResolver({}, [], log)])
+        env.configure([rc, fc, env.YHints({}, {}, log), env.YResolver({"10P": "[2][950]"}, [], log)])
     des = [_mk(i) for i in range(NEL)]
     seg_a = Segment(discriminator="SEG-A", ahb_expression="Muss", data_elements=des[:3], section_name="s", segment_id="00001")
-    seg_b = Segment(discriminator="SEG-B", ahb_expression="Kann", data_elements=des[3:], section_name="s", segment_id="00002")
+    seg_b = Segment(discriminator="SEG-B", ahb_expression="Kann", data_elements=des[3:5], section_name="s", segment_id="00002")
+    # a two-element segment: filled element first, then an empty one; the filled one gets its format constraint through a package
+    extra = [DataElementFreeText(discriminator=ELEMS[i][0], ahb_expression=ELEMS[i][1], entered_input=ELEMS[i][2], data_element_id=f"001{i}") for i in (5, 6)]
+    seg_c = Segment(discriminator="SEG-C", ahb_expression="Muss", data_elements=extra, section_name="s", segment_id="00003")
     d = dict(y0=y0, y1=y1, y2=y2, y3=y3, y4=y4, yr=yr)
     try:
         if ENTRY == 0:
-            ahb = DeepAnwendungshandbuch(meta=AhbMetaInformation(pruefidentifikator="11042"), lines=[SegmentGroup(discriminator="SG", ahb_expression="Muss", segments=[seg_a, seg_b], segment_groups=[])])
+            ahb = DeepAnwendungshandbuch(meta=AhbMetaInformation(pruefidentifikator="11042"), lines=[SegmentGroup(discriminator="SG", ahb_expression="Muss", segments=[seg_a, seg_b, seg_c], segment_groups=[])])
             res = detloop.run(validate_deep_anwendungshandbuch(ahb))
         else:
-            res = detloop.run(validate_segment(seg_a)) + detloop.run(validate_segment(seg_b))
+            res = detloop.run(validate_segment(seg_a)) + detloop.run(validate_segment(seg_b)) + detloop.run(validate_segment(seg_c))
     except Exception as e:  # pylint:disable=broad-except
         xs.reached()
         return xs.fail(f"validation raised {type(e).__name__}: {e} (yields {ys})", **d)
     recorded = list(log.fc)
     # each element validated on its own (fresh elements, nothing else running)
     solo = {}
-    for i in range(NEL):
-        parent = RVV.IS_REQUIRED if i < 3 else RVV.IS_OPTIONAL
+    elems = list(range(NEL)) + [5, 6]
+    for i in elems:
+        parent = RVV.IS_OPTIONAL if i in (3, 4) else RVV.IS_REQUIRED
         r = detloop.run(validate_data_element_freetext(_mk(i), parent))
         solo[ELEMS[i][0]] = (r.validation_result.requirement_validation.value, r.validation_result.format_validation_fulfilled, r.validation_result.format_error_message)
     xs.reached()
     by_disc = {r.discriminator: r.validation_result for r in res}
-    for i in range(NEL):
+    texts = texts + [ELEMS[5][2], ELEMS[6][2]]
+    for i in elems:
         disc, expr, text = ELEMS[i]
         if disc not in by_disc:
             return xs.fail(f"element {disc} is not reported (yields {ys})", **d)
         v = by_disc[disc]
         got = (v.requirement_validation.value, v.format_validation_fulfilled, v.format_error_message)
-        keys = [k for k in ("950", "951") if f"[{k}]" in expr]
+        keys = [k for k in ("950", "951") if f"[{k}]" in expr.replace("[10P]", "[2][950]")]
         want_ok = all(verdict(k, text) for k in keys)
         if bool(v.format_validation_fulfilled) != want_ok:
             return xs.fail(f"element {disc} ('{expr}', input {text!r}): format validation {v.format_validation_fulfilled} ({v.format_error_message!r}); judged against its own input it is {want_ok}; evaluator yields by text {dict(zip(texts, ys))}", **d)
